@@ -423,6 +423,8 @@ type scenario struct {
 	LateSigner bool `json:"late_signer,omitempty"`
 	// RebindReopen: the hand-written logrotate scenario (two FileSinks registered successively under one node id)
 	RebindReopen bool `json:"rebind_reopen,omitempty"`
+	// LogrotateCreate: the hand-written external-rotation scenario on ONE non-rotating FileSink shared by two pipelines
+	LogrotateCreate bool `json:"logrotate_create,omitempty"`
 }
 
 type result struct {
@@ -527,9 +529,135 @@ func runRebindReopen(sc scenario, dir string) result {
 	return res
 }
 
+// External rotation of a FileSink that does not rotate itself (MaxBytes 0, MaxDuration 0), shared by two pipelines, senders running
+// throughout.  Six rounds over three ways of rotating: (0) logrotate "create": rename ev.log away, create a new empty ev.log, then
+// Broker.Reopen; (1) rename away, ANOTHER process writes a file with content at the path, then FileSink.Reopen; (2) plain rename,
+// Broker.Reopen.  Every event acknowledged after Reopen returned is in the file that is AT the path, none of them in a moved-away file.
+func runLogrotateCreate(sc scenario, dir string) result {
+	res := result{Scenario: sc}
+	d := filepath.Join(dir, "audit")
+	os.MkdirAll(d, 0o755)
+	b, _ := el.NewBroker()
+	ctx := context.Background()
+	fs := &el.FileSink{Path: d, FileName: "audit.log"}
+	chk := func(err error) {
+		if err != nil {
+			panic(err)
+		}
+	}
+	chk(b.RegisterNode("pass", &el.Filter{Predicate: func(e *el.Event) (bool, error) { return true, nil }}))
+	chk(b.RegisterNode("json", &el.JSONFormatter{}))
+	chk(b.RegisterNode("file", fs))
+	chk(b.RegisterPipeline(el.Pipeline{PipelineID: "p1", EventType: "t1", NodeIDs: []el.NodeID{"json", "file"}}))
+	chk(b.RegisterPipeline(el.Pipeline{PipelineID: "p2", EventType: "t2", NodeIDs: []el.NodeID{"pass", "json", "file"}}))
+	var sent int64
+	send := func(t string, idx int) bool {
+		_, err := b.Send(ctx, el.EventType(t), plainP(idx))
+		atomic.AddInt64(&sent, 1)
+		return err == nil
+	}
+	stop := make(chan struct{})
+	var bg sync.WaitGroup
+	for g := 0; g < 2; g++ {
+		bg.Add(1)
+		go func(g int) {
+			defer bg.Done()
+			for i := 0; ; i++ {
+				select {
+				case <-stop:
+					return
+				default:
+				}
+				send([]string{"t1", "t2"}[(g+i)%2], 5000000+g*1000000+i)
+			}
+		}(g)
+	}
+	for i := 0; i < 10; i++ {
+		send("t1", i)
+		send("t2", 500+i)
+	}
+	path := filepath.Join(d, "audit.log")
+	has := func(data []byte, idx int) bool { return bytes.Contains(data, []byte(fmt.Sprintf("\"N\":%d}", idx))) }
+	var moved []string
+	for round := 0; round < 6; round++ {
+		away := filepath.Join(d, fmt.Sprintf("audit.log.%d", round+1))
+		how := []string{"rename away + create an empty file at the path (logrotate create), Broker.Reopen",
+			"rename away + another process's file with content at the path, FileSink.Reopen", "rename away, Broker.Reopen"}[round%3]
+		if err := os.Rename(path, away); err != nil {
+			res.Integrity = append(res.Integrity, fmt.Sprintf("logrotate-create: round %d: cannot rename the log away: %v", round, err))
+			break
+		}
+		moved = append(moved, away)
+		var rerr error
+		switch round % 3 {
+		case 0:
+			chk(os.WriteFile(path, nil, 0o600))
+			rerr = b.Reopen(ctx)
+		case 1:
+			chk(os.WriteFile(path, []byte("{\"foreign\":true}\n"), 0o600))
+			rerr = fs.Reopen()
+		default:
+			rerr = b.Reopen(ctx)
+		}
+		if rerr != nil {
+			res.Integrity = append(res.Integrity, fmt.Sprintf("logrotate-create: round %d (%s): Reopen: %v", round, how, rerr))
+		}
+		var post []int
+		for i := 0; i < 12; i++ {
+			for ti, t := range []string{"t1", "t2"} {
+				idx := 10000*(round+1) + 100*ti + i
+				if send(t, idx) {
+					post = append(post, idx)
+				}
+			}
+		}
+		// the file AT the path now (before the next round moves it away) and every file moved away so far
+		data, err := os.ReadFile(path)
+		if err != nil {
+			res.Integrity = append(res.Integrity, fmt.Sprintf("logrotate-create: round %d (%s): no file at the sink's path after Reopen: %v", round, how, err))
+			continue
+		}
+		missing, inOld := 0, 0
+		for _, idx := range post {
+			if !has(data, idx) {
+				missing++
+			}
+		}
+		for _, m := range moved {
+			old, _ := os.ReadFile(m)
+			for _, idx := range post {
+				if has(old, idx) {
+					inOld++
+				}
+			}
+		}
+		if missing+inOld > 0 && len(res.Integrity) < 4 {
+			res.Integrity = append(res.Integrity, fmt.Sprintf("logrotate-create: round %d (%s): of the %d events acknowledged after Reopen returned %d are not in the file at the sink's path and %d are in a file that was moved away (the sink kept the old descriptor)", round, how, len(post), missing, inOld))
+		}
+	}
+	close(stop)
+	bg.Wait()
+	for _, m := range append(moved, path) {
+		data, err := os.ReadFile(m)
+		if err != nil {
+			continue
+		}
+		n, err := jsonDocs(data)
+		res.Docs += n
+		if err != nil {
+			res.Integrity = append(res.Integrity, fmt.Sprintf("%s: file is not a sequence of JSON documents: %v", m, err))
+		}
+	}
+	res.Sent = sent
+	return res
+}
+
 func runScenario(sc scenario, seed uint64, dir string) result {
 	if sc.RebindReopen {
 		return runRebindReopen(sc, dir)
+	}
+	if sc.LogrotateCreate {
+		return runLogrotateCreate(sc, dir)
 	}
 	r := hc.NewRand(seed)
 	os.MkdirAll(dir, 0o755)
@@ -1229,6 +1357,7 @@ func main() {
 		scs = focused(*per)
 		scs = append(scs, pairScenarios(*per)...)
 		scs = append(scs, scenario{Name: "filesink-rebind-reopen", RebindReopen: true})
+		scs = append(scs, scenario{Name: "filesink-logrotate-create", LogrotateCreate: true})
 		scs = append(scs, headScenarios(r.Fork(), *per, *nrandom, *nrandom/2)...)
 		for i := 0; i < *nrandom; i++ {
 			scs = append(scs, randomScenario(r.Fork(), i, *per))
